@@ -138,4 +138,852 @@ theorem map_mkRight_of_free {A : KL w L} {B : KL w R} (aL : Lpm w L) (h : ∀ b 
   intro b hb
   simp [mkRight, annOf_of_cover_nil aL (h b hb)]
 
+/-! ### `next_indices` of union.rs -/
+
+theorem keyLt_total_incomp {a b : List Bool} (h1 : ¬ a <+: b) (h2 : ¬ b <+: a)
+    (h : Spec.keyLt a b = false) : Spec.keyLt b a = true := by
+  obtain ⟨c, x, y, ra, rb, rfl, rfl, hne⟩ := List.exists_first_diff a b h1 h2
+  rw [Spec.keyLt_append_left] at h ⊢
+  cases x <;> cases y <;> simp_all [Spec.keyLt]
+
+theorem maskLt_false_of_maskEq {a b : Pfx w} (h : Pfx.maskEq a b = true) : Pfx.maskLt a b = false := by
+  unfold Pfx.maskEq at h
+  unfold Pfx.maskLt
+  rw [beq_iff_eq] at h
+  rw [h]; simp
+
+section unfold
+variable {sa : Nat} {pa : Pfx w} {va : Option L} {la ra : Tree w L}
+  {sb : Nat} {pb : Pfx w} {vb : Option R} {lb rb : Tree w R}
+
+theorem uNext_both (hl : pa.len = pb.len) (hm : Pfx.maskEq pa pb = true) :
+    uNext (.node sa pa va la ra) (.node sb pb vb lb rb) = [.both (.node sa pa va la ra) (.node sb pb vb lb rb)] := by
+  simp [uNext, hl, hm, maskLt_false_of_maskEq hm]
+
+theorem uNext_len_eq_lt (hl : pa.len = pb.len) (hlt : Pfx.maskLt pa pb = true) :
+    uNext (.node sa pa va la ra) (.node sb pb vb lb rb) =
+      [.onlyR (.node sb pb vb lb rb), .onlyL (.node sa pa va la ra)] := by
+  simp [uNext, hl, hlt]
+
+theorem uNext_len_eq_gt (hl : pa.len = pb.len) (hlt : ¬ Pfx.maskLt pa pb = true) (hm : ¬ Pfx.maskEq pa pb = true) :
+    uNext (.node sa pa va la ra) (.node sb pb vb lb rb) =
+      [.onlyL (.node sa pa va la ra), .onlyR (.node sb pb vb lb rb)] := by
+  simp [uNext, hl, hlt, hm]
+
+theorem uNext_firstL (hl : pa.len ≠ pb.len) (h1 : pa.contains pb = true) :
+    uNext (.node sa pa va la ra) (.node sb pb vb lb rb) = [.firstL (.node sa pa va la ra) (.node sb pb vb lb rb)] := by
+  simp [uNext, hl, h1]
+
+theorem uNext_firstR (hl : pa.len ≠ pb.len) (h1 : ¬ pa.contains pb = true) (h2 : pb.contains pa = true) :
+    uNext (.node sa pa va la ra) (.node sb pb vb lb rb) = [.firstR (.node sa pa va la ra) (.node sb pb vb lb rb)] := by
+  simp [uNext, hl, h1, h2]
+
+theorem uNext_incomp_lt (hl : pa.len ≠ pb.len) (h1 : ¬ pa.contains pb = true) (h2 : ¬ pb.contains pa = true)
+    (hlt : Pfx.maskLt pa pb = true) :
+    uNext (.node sa pa va la ra) (.node sb pb vb lb rb) =
+      [.onlyR (.node sb pb vb lb rb), .onlyL (.node sa pa va la ra)] := by
+  simp [uNext, hl, h1, h2, hlt]
+
+theorem uNext_incomp_gt (hl : pa.len ≠ pb.len) (h1 : ¬ pa.contains pb = true) (h2 : ¬ pb.contains pa = true)
+    (hlt : ¬ Pfx.maskLt pa pb = true) :
+    uNext (.node sa pa va la ra) (.node sb pb vb lb rb) =
+      [.onlyL (.node sa pa va la ra), .onlyR (.node sb pb vb lb rb)] := by
+  simp [uNext, hl, h1, h2, hlt]
+end unfold
+
+/-- the conclusion of `uNext_spec`, as a predicate on the list of indices returned -/
+def UNextOk (a : Tree w L) (b : Tree w R) (aL : Lpm w L) (aR : Lpm w R) (xs : List (UIdx w L R)) : Prop :=
+  (∀ c ∈ uExtend aL aR xs, uOk c) ∧
+  (uExtend aL aR xs).reverse.flatMap uSem =
+    unionS (annOf b.slotEntries aR) (annOf a.slotEntries aL) a.slotEntries b.slotEntries ∧
+  Machine.wt1 uNu (uExtend aL aR xs) ≤ a.size + b.size
+
+/-- two subtrees with incomparable roots: both `OnlyL a` and `OnlyR b`, the smaller one popped first -/
+theorem uNext_disjoint {sa : Nat} {pa : Pfx w} {va : Option L} {la ra : Tree w L}
+    {sb : Nat} {pb : Pfx w} {vb : Option R} {lb rb : Tree w R} (aL : Lpm w L) (aR : Lpm w R)
+    (hwa : HasWF (Tree.node sa pa va la ra)) (hwb : HasWF (Tree.node sb pb vb lb rb))
+    (h1 : ¬ pa.net <+: pb.net) (h2 : ¬ pb.net <+: pa.net) :
+    (Pfx.maskLt pa pb = true →
+      UNextOk (.node sa pa va la ra) (.node sb pb vb lb rb) aL aR
+        [.onlyR (.node sb pb vb lb rb), .onlyL (.node sa pa va la ra)]) ∧
+    (¬ Pfx.maskLt pa pb = true →
+      UNextOk (.node sa pa va la ra) (.node sb pb vb lb rb) aL aR
+        [.onlyL (.node sa pa va la ra), .onlyR (.node sb pb vb lb rb)]) := by
+  obtain ⟨ua, _, _⟩ := under_root hwa
+  obtain ⟨ub, _, _⟩ := under_root hwb
+  have hfreeA : ∀ x ∈ (Tree.node sa pa va la ra).slotEntries, coverK (Tree.node sb pb vb lb rb).slotEntries x.2.1 = [] :=
+    fun x hx => coverK_incomparable ub (ua x hx) h1 h2
+  have hfreeB : ∀ y ∈ (Tree.node sb pb vb lb rb).slotEntries, coverK (Tree.node sa pa va la ra).slotEntries y.2.1 = [] :=
+    fun y hy => coverK_incomparable ua (ub y hy) h2 h1
+  have hokL : uOk ((.onlyL (.node sa pa va la ra) : UIdx w L R), orLpm (.node sa pa va la ra) aL, aR) :=
+    ⟨hwa, hasWF_nil, by simp⟩
+  have hokR : uOk ((.onlyR (.node sb pb vb lb rb) : UIdx w L R), aL, orLpm (.node sb pb vb lb rb) aR) :=
+    ⟨hasWF_nil, hwb, by simp⟩
+  have hsz : (Tree.nil : Tree w L).size = 0 ∧ (Tree.nil : Tree w R).size = 0 := ⟨rfl, rfl⟩
+  constructor
+  · intro hlt
+    have hk : Spec.keyLt pa.net pb.net = true := (Pfx.maskLt_iff_keyLt pa pb h1 h2).1 hlt
+    have hsep : Sep (Tree.node sa pa va la ra).slotEntries ([] : KL w R) ([] : KL w L) (Tree.node sb pb vb lb rb).slotEntries :=
+      ⟨by simp, fun x hx y hy => by rw [Pfx.keyLt_of_roots h1 h2 (ua x hx) (ub y hy)]; exact hk, by simp, by simp⟩
+    refine ⟨?_, ?_, ?_⟩
+    · intro c hc
+      have : c = (.onlyR (.node sb pb vb lb rb), aL, orLpm (.node sb pb vb lb rb) aR) ∨
+          c = (.onlyL (.node sa pa va la ra), orLpm (.node sa pa va la ra) aL, aR) := by
+        simpa [uExtend] using hc
+      rcases this with rfl | rfl
+      · exact hokR
+      · exact hokL
+    · have e : (uExtend aL aR [(.onlyR (.node sb pb vb lb rb) : UIdx w L R), .onlyL (.node sa pa va la ra)]).reverse =
+          [(.onlyL (.node sa pa va la ra), orLpm (.node sa pa va la ra) aL, aR),
+           (.onlyR (.node sb pb vb lb rb), aL, orLpm (.node sb pb vb lb rb) aR)] := rfl
+      rw [e]
+      simp only [List.flatMap_cons, List.flatMap_nil, List.append_nil, uSem_onlyL, uSem_onlyR]
+      have := unionS_append (annOf (Tree.node sb pb vb lb rb).slotEntries aR) (annOf (Tree.node sa pa va la ra).slotEntries aL)
+        _ (Tree.node sa pa va la ra).slotEntries [] [] (Tree.node sb pb vb lb rb).slotEntries (Nat.le_refl _) hsep
+      simp only [List.append_nil, List.nil_append] at this
+      rw [this, unionS_nil_right, unionS_nil_left, map_mkLeft_of_free aR hfreeA, map_mkRight_of_free aL hfreeB]
+    · simp [uExtend, Machine.wt1_cons, Machine.wt1_nil, uNu, uL, uR, hsz] <;> omega
+  · intro hlt
+    have hk : Spec.keyLt pb.net pa.net = true := by
+      apply keyLt_total_incomp h1 h2
+      cases hh : Spec.keyLt pa.net pb.net with
+      | false => rfl
+      | true => exact absurd ((Pfx.maskLt_iff_keyLt pa pb h1 h2).2 hh) hlt
+    have hsep : Sep ([] : KL w L) (Tree.node sb pb vb lb rb).slotEntries (Tree.node sa pa va la ra).slotEntries ([] : KL w R) :=
+      ⟨by simp, by simp, fun y hy x hx => by rw [Pfx.keyLt_of_roots h2 h1 (ub y hy) (ua x hx)]; exact hk, by simp⟩
+    refine ⟨?_, ?_, ?_⟩
+    · intro c hc
+      have : c = (.onlyL (.node sa pa va la ra), orLpm (.node sa pa va la ra) aL, aR) ∨
+          c = (.onlyR (.node sb pb vb lb rb), aL, orLpm (.node sb pb vb lb rb) aR) := by
+        simpa [uExtend] using hc
+      rcases this with rfl | rfl
+      · exact hokL
+      · exact hokR
+    · have e : (uExtend aL aR [(.onlyL (.node sa pa va la ra) : UIdx w L R), .onlyR (.node sb pb vb lb rb)]).reverse =
+          [(.onlyR (.node sb pb vb lb rb), aL, orLpm (.node sb pb vb lb rb) aR),
+           (.onlyL (.node sa pa va la ra), orLpm (.node sa pa va la ra) aL, aR)] := rfl
+      rw [e]
+      simp only [List.flatMap_cons, List.flatMap_nil, List.append_nil, uSem_onlyL, uSem_onlyR]
+      have := unionS_append (annOf (Tree.node sb pb vb lb rb).slotEntries aR) (annOf (Tree.node sa pa va la ra).slotEntries aL)
+        _ [] (Tree.node sb pb vb lb rb).slotEntries (Tree.node sa pa va la ra).slotEntries [] (Nat.le_refl _) hsep
+      simp only [List.append_nil, List.nil_append] at this
+      rw [this, unionS_nil_right, unionS_nil_left, map_mkLeft_of_free aR hfreeA, map_mkRight_of_free aL hfreeB]
+    · simp [uExtend, Machine.wt1_cons, Machine.wt1_nil, uNu, uL, uR, hsz] <;> omega
+
+theorem uNext_spec (a : Tree w L) (b : Tree w R) (aL : Lpm w L) (aR : Lpm w R) (hwa : HasWF a) (hwb : HasWF b) :
+    UNextOk a b aL aR (uNext a b) := by
+  cases a with
+  | nil =>
+    cases b with
+    | nil => exact ⟨by simp [uNext, uExtend], by simp [uNext, uExtend, slotEntries, unionS_nil_left], by simp [uNext, uExtend, Machine.wt1_nil]⟩
+    | node sb pb vb lb rb =>
+      have : uNext (.nil : Tree w L) (Tree.node sb pb vb lb rb) = [.onlyR (.node sb pb vb lb rb)] := rfl
+      rw [this]
+      refine ⟨?_, ?_, ?_⟩
+      · intro c hc
+        have : c = (.onlyR (.node sb pb vb lb rb), aL, orLpm (.node sb pb vb lb rb) aR) := by simpa [uExtend] using hc
+        subst this
+        exact ⟨hasWF_nil, hwb, by simp⟩
+      · have e : (uExtend aL aR [(.onlyR (.node sb pb vb lb rb) : UIdx w L R)]).reverse =
+            [(.onlyR (.node sb pb vb lb rb), aL, orLpm (.node sb pb vb lb rb) aR)] := rfl
+        rw [e]
+        simp only [List.flatMap_cons, List.flatMap_nil, List.append_nil, uSem_onlyR, slotEntries, unionS_nil_left]
+        rfl
+      · simp [uExtend, Machine.wt1_cons, Machine.wt1_nil, uNu, uL, uR, Tree.size]
+  | node sa pa va la ra =>
+    cases b with
+    | nil =>
+      have : uNext (Tree.node sa pa va la ra) (.nil : Tree w R) = [.onlyL (.node sa pa va la ra)] := rfl
+      rw [this]
+      refine ⟨?_, ?_, ?_⟩
+      · intro c hc
+        have : c = (.onlyL (.node sa pa va la ra), orLpm (.node sa pa va la ra) aL, aR) := by simpa [uExtend] using hc
+        subst this
+        exact ⟨hwa, hasWF_nil, by simp⟩
+      · have e : (uExtend aL aR [(.onlyL (.node sa pa va la ra) : UIdx w L R)]).reverse =
+            [(.onlyL (.node sa pa va la ra), orLpm (.node sa pa va la ra) aL, aR)] := rfl
+        rw [e]
+        simp only [List.flatMap_cons, List.flatMap_nil, List.append_nil, uSem_onlyL]
+        rw [show (Tree.nil : Tree w R).slotEntries = [] from rfl, unionS_nil_right]
+        rfl
+      · simp [uExtend, Machine.wt1_cons, Machine.wt1_nil, uNu, uL, uR, Tree.size]
+    | node sb pb vb lb rb =>
+      obtain ⟨ua, _, _⟩ := under_root hwa
+      obtain ⟨ub, _, _⟩ := under_root hwb
+      by_cases hl : pa.len = pb.len
+      · by_cases hm : Pfx.maskEq pa pb = true
+        · have hnet := (maskEq_iff_net hl).1 hm
+          rw [uNext_both hl hm]
+          refine ⟨?_, ?_, ?_⟩
+          · intro c hc
+            have : c = (.both (.node sa pa va la ra) (.node sb pb vb lb rb), orLpm (.node sa pa va la ra) aL,
+                orLpm (.node sb pb vb lb rb) aR) := by simpa [uExtend] using hc
+            subst this
+            exact ⟨hwa, hwb, by simp, by simp, by simp [rootNet, pfx?, hnet], orLpm_idem _ _, orLpm_idem _ _⟩
+          · have e : (uExtend aL aR [(.both (.node sa pa va la ra) (.node sb pb vb lb rb) : UIdx w L R)]).reverse =
+                [(.both (.node sa pa va la ra) (.node sb pb vb lb rb), orLpm (.node sa pa va la ra) aL,
+                  orLpm (.node sb pb vb lb rb) aR)] := rfl
+            rw [e]
+            simp only [List.flatMap_cons, List.flatMap_nil, List.append_nil]
+            unfold uSem
+            simp only [uL, uR]
+            exact unionS_congr _ _ _ (Nat.le_refl _)
+              (fun x hx => ann_fold_absorb aR (hnet ▸ ua x hx))
+              (fun y hy => ann_fold_absorb aL (hnet ▸ ub y hy))
+          · simp [uExtend, Machine.wt1_cons, Machine.wt1_nil, uNu, uL, uR]
+        · have hne : pa.net ≠ pb.net := fun e => hm ((maskEq_iff_net hl).2 e)
+          have h1 : ¬ pa.net <+: pb.net := fun h => hne (h.eq_of_length (by simp [Pfx.net_length, hl]))
+          have h2 : ¬ pb.net <+: pa.net := fun h => hne (h.eq_of_length (by simp [Pfx.net_length, hl])).symm
+          obtain ⟨d1, d2⟩ := uNext_disjoint aL aR hwa hwb h1 h2
+          by_cases hlt : Pfx.maskLt pa pb = true
+          · rw [uNext_len_eq_lt hl hlt]; exact d1 hlt
+          · rw [uNext_len_eq_gt hl hlt hm]; exact d2 hlt
+      · have hne : pa.net ≠ pb.net := Pfx.net_ne_of_len_ne hl
+        by_cases h1 : pa.contains pb = true
+        · have h1' := (Pfx.contains_iff pa pb).1 h1
+          rw [uNext_firstL hl h1]
+          refine ⟨?_, ?_, ?_⟩
+          · intro c hc
+            have : c = (.firstL (.node sa pa va la ra) (.node sb pb vb lb rb), orLpm (.node sa pa va la ra) aL, aR) := by
+              simpa [uExtend] using hc
+            subst this
+            exact ⟨hwa, hwb, by simp, by simp, by simp [rootNet, pfx?, h1'], by simp [rootNet, pfx?, hne], orLpm_idem _ _⟩
+          · have e : (uExtend aL aR [(.firstL (.node sa pa va la ra) (.node sb pb vb lb rb) : UIdx w L R)]).reverse =
+                [(.firstL (.node sa pa va la ra) (.node sb pb vb lb rb), orLpm (.node sa pa va la ra) aL, aR)] := rfl
+            rw [e]
+            simp only [List.flatMap_cons, List.flatMap_nil, List.append_nil]
+            unfold uSem
+            simp only [uL, uR]
+            exact unionS_congr _ _ _ (Nat.le_refl _) (fun x _ => rfl)
+              (fun y hy => ann_fold_absorb aL (h1'.trans (ub y hy)))
+          · simp [uExtend, Machine.wt1_cons, Machine.wt1_nil, uNu, uL, uR]
+        · by_cases h2 : pb.contains pa = true
+          · have h2' := (Pfx.contains_iff pb pa).1 h2
+            rw [uNext_firstR hl h1 h2]
+            refine ⟨?_, ?_, ?_⟩
+            · intro c hc
+              have : c = (.firstR (.node sa pa va la ra) (.node sb pb vb lb rb), aL, orLpm (.node sb pb vb lb rb) aR) := by
+                simpa [uExtend] using hc
+              subst this
+              exact ⟨hwa, hwb, by simp, by simp, by simp [rootNet, pfx?, h2'], by simp [rootNet, pfx?, hne], orLpm_idem _ _⟩
+            · have e : (uExtend aL aR [(.firstR (.node sa pa va la ra) (.node sb pb vb lb rb) : UIdx w L R)]).reverse =
+                  [(.firstR (.node sa pa va la ra) (.node sb pb vb lb rb), aL, orLpm (.node sb pb vb lb rb) aR)] := rfl
+              rw [e]
+              simp only [List.flatMap_cons, List.flatMap_nil, List.append_nil]
+              unfold uSem
+              simp only [uL, uR]
+              exact unionS_congr _ _ _ (Nat.le_refl _)
+                (fun x hx => ann_fold_absorb aR (h2'.trans (ua x hx))) (fun y _ => rfl)
+            · simp [uExtend, Machine.wt1_cons, Machine.wt1_nil, uNu, uL, uR]
+          · have h1' : ¬ pa.net <+: pb.net := fun h => h1 ((Pfx.contains_iff pa pb).2 h)
+            have h2' : ¬ pb.net <+: pa.net := fun h => h2 ((Pfx.contains_iff pb pa).2 h)
+            obtain ⟨d1, d2⟩ := uNext_disjoint aL aR hwa hwb h1' h2'
+            by_cases hlt : Pfx.maskLt pa pb = true
+            · rw [uNext_incomp_lt hl h1 h2 hlt]; exact d1 hlt
+            · rw [uNext_incomp_gt hl h1 h2 hlt]; exact d2 hlt
+
+/-! ### the step of `Union::next` / `UnionMut::next` -/
+
+theorem uExtend_append (aL : Lpm w L) (aR : Lpm w R) (xs ys : List (UIdx w L R)) :
+    uExtend aL aR (xs ++ ys) = uExtend aL aR xs ++ uExtend aL aR ys := by simp [uExtend]
+
+theorem uExtend_onlyL (aL : Lpm w L) (aR : Lpm w R) (t : Tree w L) :
+    uExtend aL aR [(.onlyL t : UIdx w L R)] = [(.onlyL t, orLpm t aL, aR)] := rfl
+
+theorem uExtend_onlyR (aL : Lpm w L) (aR : Lpm w R) (t : Tree w R) :
+    uExtend aL aR [(.onlyR t : UIdx w L R)] = [(.onlyR t, aL, orLpm t aR)] := rfl
+
+theorem uExtend_cons_onlyL (aL : Lpm w L) (aR : Lpm w R) (t : Tree w L) (xs : List (UIdx w L R)) :
+    uExtend aL aR ((.onlyL t : UIdx w L R) :: xs) = (.onlyL t, orLpm t aL, aR) :: uExtend aL aR xs := rfl
+
+theorem uExtend_cons_onlyR (aL : Lpm w L) (aR : Lpm w R) (t : Tree w R) (xs : List (UIdx w L R)) :
+    uExtend aL aR ((.onlyR t : UIdx w L R) :: xs) = (.onlyR t, aL, orLpm t aR) :: uExtend aL aR xs := rfl
+
+theorem uExtend_nil (aL : Lpm w L) (aR : Lpm w R) : uExtend aL aR ([] : List (UIdx w L R)) = [] := rfl
+
+theorem uOk_onlyL {t : Tree w L} (aL : Lpm w L) (aR : Lpm w R) (h : HasWF t) (hn : t ≠ .nil) :
+    uOk ((.onlyL t : UIdx w L R), aL, aR) := ⟨h, hasWF_nil, hn⟩
+
+theorem uOk_onlyR {t : Tree w R} (aL : Lpm w L) (aR : Lpm w R) (h : HasWF t) (hn : t ≠ .nil) :
+    uOk ((.onlyR t : UIdx w L R), aL, aR) := ⟨hasWF_nil, h, hn⟩
+
+theorem uNu_onlyL (t : Tree w L) (aL : Lpm w L) (aR : Lpm w R) : uNu ((.onlyL t : UIdx w L R), aL, aR) = t.size := by
+  simp [uNu, uL, uR, Tree.size]
+
+theorem uNu_onlyR (t : Tree w R) (aL : Lpm w L) (aR : Lpm w R) : uNu ((.onlyR t : UIdx w L R), aL, aR) = t.size := by
+  simp [uNu, uL, uR, Tree.size]
+
+/-- pushed `OnlyL` children, in pop order -/
+theorem uOnlyChildrenL_spec (aL : Lpm w L) (aR : Lpm w R) (ll lr : Tree w L) (hl : HasWF ll) (hr : HasWF lr) :
+    (∀ c ∈ uExtend aL aR (onlyChildren (.onlyL : Tree w L → UIdx w L R) ll lr), uOk c) ∧
+    (uExtend aL aR (onlyChildren (.onlyL : Tree w L → UIdx w L R) ll lr)).reverse.flatMap uSem =
+      ll.slotEntries.map (mkLeft (fun _ => aR)) ++ lr.slotEntries.map (mkLeft (fun _ => aR)) ∧
+    Machine.wt1 uNu (uExtend aL aR (onlyChildren (.onlyL : Tree w L → UIdx w L R) ll lr)) ≤ ll.size + lr.size := by
+  unfold onlyChildren
+  cases ll with
+  | nil =>
+    cases lr with
+    | nil => simp [uExtend_nil, slotEntries, Machine.wt1_nil]
+    | node s p v a b =>
+      refine ⟨?_, ?_, ?_⟩
+      · simp only [List.append_nil, uExtend_onlyL, List.mem_singleton, forall_eq]
+        exact uOk_onlyL _ aR hr (by simp)
+      · simp [uExtend_onlyL, uSem_onlyL, slotEntries]
+      · simp [uExtend_onlyL, Machine.wt1_cons, Machine.wt1_nil, uNu_onlyL]
+  | node s p v a b =>
+    cases lr with
+    | nil =>
+      refine ⟨?_, ?_, ?_⟩
+      · simp only [List.nil_append, uExtend_onlyL, List.mem_singleton, forall_eq]
+        exact uOk_onlyL _ aR hl (by simp)
+      · simp [uExtend_onlyL, uSem_onlyL, slotEntries]
+      · simp [uExtend_onlyL, Machine.wt1_cons, Machine.wt1_nil, uNu_onlyL]
+    | node s' p' v' a' b' =>
+      refine ⟨?_, ?_, ?_⟩
+      · intro c hc
+        simp only [List.singleton_append, uExtend_cons_onlyL, uExtend_nil, List.mem_cons, List.not_mem_nil, or_false] at hc
+        rcases hc with rfl | rfl
+        · exact uOk_onlyL _ aR hr (by simp)
+        · exact uOk_onlyL _ aR hl (by simp)
+      · simp [uExtend_cons_onlyL, uExtend_nil, uSem_onlyL]
+      · simp [uExtend_cons_onlyL, uExtend_nil, Machine.wt1_cons, Machine.wt1_nil, uNu_onlyL]; omega
+
+theorem uOnlyChildrenR_spec (aL : Lpm w L) (aR : Lpm w R) (rl rr : Tree w R) (hl : HasWF rl) (hr : HasWF rr) :
+    (∀ c ∈ uExtend aL aR (onlyChildren (.onlyR : Tree w R → UIdx w L R) rl rr), uOk c) ∧
+    (uExtend aL aR (onlyChildren (.onlyR : Tree w R → UIdx w L R) rl rr)).reverse.flatMap uSem =
+      rl.slotEntries.map (mkRight (fun _ => aL)) ++ rr.slotEntries.map (mkRight (fun _ => aL)) ∧
+    Machine.wt1 uNu (uExtend aL aR (onlyChildren (.onlyR : Tree w R → UIdx w L R) rl rr)) ≤ rl.size + rr.size := by
+  unfold onlyChildren
+  cases rl with
+  | nil =>
+    cases rr with
+    | nil => simp [uExtend_nil, slotEntries, Machine.wt1_nil]
+    | node s p v a b =>
+      refine ⟨?_, ?_, ?_⟩
+      · simp only [List.append_nil, uExtend_onlyR, List.mem_singleton, forall_eq]
+        exact uOk_onlyR aL _ hr (by simp)
+      · simp [uExtend_onlyR, uSem_onlyR, slotEntries]
+      · simp [uExtend_onlyR, Machine.wt1_cons, Machine.wt1_nil, uNu_onlyR]
+  | node s p v a b =>
+    cases rr with
+    | nil =>
+      refine ⟨?_, ?_, ?_⟩
+      · simp only [List.nil_append, uExtend_onlyR, List.mem_singleton, forall_eq]
+        exact uOk_onlyR aL _ hl (by simp)
+      · simp [uExtend_onlyR, uSem_onlyR, slotEntries]
+      · simp [uExtend_onlyR, Machine.wt1_cons, Machine.wt1_nil, uNu_onlyR]
+    | node s' p' v' a' b' =>
+      refine ⟨?_, ?_, ?_⟩
+      · intro c hc
+        simp only [List.singleton_append, uExtend_cons_onlyR, uExtend_nil, List.mem_cons, List.not_mem_nil, or_false] at hc
+        rcases hc with rfl | rfl
+        · exact uOk_onlyR aL _ hr (by simp)
+        · exact uOk_onlyR aL _ hl (by simp)
+      · simp [uExtend_cons_onlyR, uExtend_nil, uSem_onlyR]
+      · simp [uExtend_cons_onlyR, uExtend_nil, Machine.wt1_cons, Machine.wt1_nil, uNu_onlyR]; omega
+
+/-- view of the item yielded for a node pair / a single node -/
+theorem view_uItem (p : Pfx w) (l : Option (Nat × L)) (r : Option (Nat × R)) (aL : Lpm w L) (aR : Lpm w R) :
+    (uItem p l r aL aR).bind UItem.view =
+      (match l, r with
+       | some x, none => some (.left p x aR)
+       | none, some y => some (.right p aL y)
+       | some x, some y => some (.both p x y)
+       | none, none => none) := by
+  cases l <;> cases r <;> rfl
+
+theorem slotVal_node {T : Type} (s : Nat) (p : Pfx w) (v : Option T) (l r : Tree w T) :
+    slotVal (Tree.node s p v l r) = v.map (fun x => (s, x)) := by cases v <;> rfl
+
+/-- what has to be shown about one step -/
+def UStepOk (e : UEntry w L R) : Prop :=
+  (∀ c ∈ (uStep e).2, uOk c) ∧
+  uSem e = ((uStep e).1.bind UItem.view).toList ++ (uStep e).2.reverse.flatMap uSem ∧
+  Machine.wt1 uNu (uStep e).2 + 1 ≤ uNu e
+
+theorem keyLt_sides {k x y : List Bool} (hx : k ++ [false] <+: x) (hy : k ++ [true] <+: y) :
+    Spec.keyLt x y = true := Spec.keyLt_of_sides hx hy
+
+theorem uStep_both_ok {sl : Nat} {pl : Pfx w} {vl : Option L} {ll lr : Tree w L}
+    {sr : Nat} {pr : Pfx w} {vr : Option R} {rl rr : Tree w R} (aL : Lpm w L) (aR : Lpm w R)
+    (hwl : HasWF (Tree.node sl pl vl ll lr)) (hwr : HasWF (Tree.node sr pr vr rl rr)) (hnet : pl.net = pr.net)
+    (hfl : orLpm (Tree.node sl pl vl ll lr) aL = aL) (hfr : orLpm (Tree.node sr pr vr rl rr) aR = aR) :
+    UStepOk (.both (.node sl pl vl ll lr) (.node sr pr vr rl rr), aL, aR) := by
+  obtain ⟨hwll, hwlr⟩ := hwl.child
+  obtain ⟨hwrl, hwrr⟩ := hwr.child
+  obtain ⟨a1, a2, a3⟩ := uNext_spec lr rr aL aR hwlr hwrr
+  obtain ⟨b1, b2, b3⟩ := uNext_spec ll rl aL aR hwll hwrl
+  obtain ⟨ul, ull, ulr⟩ := under_root hwl
+  obtain ⟨ur, url, urr⟩ := under_root hwr
+  have url' : Under (pl.net ++ [false]) rl.slotEntries := by rw [hnet]; exact url
+  have urr' : Under (pl.net ++ [true]) rr.slotEntries := by rw [hnet]; exact urr
+  have hs : uStep (.both (.node sl pl vl ll lr) (.node sr pr vr rl rr), aL, aR) =
+      (uItem (if vl.isSome then pl else pr) (slotVal (.node sl pl vl ll lr)) (slotVal (.node sr pr vr rl rr)) aL aR,
+       uExtend aL aR (uNext lr rr) ++ uExtend aL aR (uNext ll rl)) := rfl
+  unfold UStepOk
+  rw [hs]
+  refine ⟨fun c hc => ?_, ?_, ?_⟩
+  · rcases List.mem_append.1 hc with hc | hc
+    · exact a1 c hc
+    · exact b1 c hc
+  · simp only [List.reverse_append, List.flatMap_append, a2, b2]
+    unfold uSem
+    simp only [uL, uR]
+    generalize hFL : annOf (Tree.node sr pr vr rl rr).slotEntries aR = FL
+    generalize hFR : annOf (Tree.node sl pl vl ll lr).slotEntries aL = FR
+    rw [slotEntries_node sl, slotEntries_node sr, List.append_assoc, List.append_assoc]
+    -- split off the two own entries, then the two sides
+    have sep1 : Sep (ownS sl pl vl) (ownS sr pr vr) (ll.slotEntries ++ lr.slotEntries) (rl.slotEntries ++ rr.slotEntries) :=
+      sep_own (allKey_ownS sl pl vl) (hnet ▸ allKey_ownS sr pr vr) (exists_side_append ull ulr)
+        (exists_side_append url' urr')
+    have sep2 : Sep ll.slotEntries rl.slotEntries lr.slotEntries rr.slotEntries :=
+      sep_of_lt ull url' ulr urr' (fun x y hx hy => keyLt_sides hx hy)
+    rw [unionS_append _ _ _ _ _ _ _ (Nat.le_refl _) sep1, unionS_append _ _ _ _ _ _ _ (Nat.le_refl _) sep2]
+    subst hFL hFR
+    congr 1
+    · -- the two own entries
+      have hpre : pl.net <+: pr.net := hnet ▸ List.prefix_refl _
+      have hpre' : pr.net <+: pl.net := hnet ▸ List.prefix_refl _
+      rw [view_uItem, slotVal_node, slotVal_node]
+      cases vl with
+      | none =>
+        cases vr with
+        | none => simp [ownS, unionS_nil_left]
+        | some y =>
+          have hc : coverK (Tree.node sl pl none ll lr).slotEntries pr = [] := by
+            rw [slotEntries_node, coverK_append, coverK_append, coverK_below ull hpre', coverK_below ulr hpre']; rfl
+          simp [ownS, unionS_nil_left, mkRight, annOf_of_cover_nil aL hc]
+      | some x =>
+        cases vr with
+        | none =>
+          have hc : coverK (Tree.node sr pr none rl rr).slotEntries pl = [] := by
+            rw [slotEntries_node, coverK_append, coverK_append, coverK_below url hpre, coverK_below urr hpre]; rfl
+          simp [ownS, unionS_nil_right, mkLeft, annOf_of_cover_nil aR hc]
+        | some y =>
+          have hk : keyOf (sl, pl, x) = keyOf (sr, pr, y) := hnet
+          simp [ownS, unionS_cons_cons, hk, unionS_nil_left]
+    · congr 1
+      · exact unionS_congr _ _ _ (Nat.le_refl _)
+          (fun x hx => annOf_side hwr false (hnet ▸ ull x hx) hfr)
+          (fun y hy => annOf_side hwl false (url' y hy) hfl)
+      · exact unionS_congr _ _ _ (Nat.le_refl _)
+          (fun x hx => annOf_side hwr true (hnet ▸ ulr x hx) hfr)
+          (fun y hy => annOf_side hwl true (urr' y hy) hfl)
+  · rw [Machine.wt1_append]
+    have h1 := size_node_eq sl pl vl ll lr
+    have h2 := size_node_eq sr pr vr rl rr
+    simp only [uNu, uL, uR]
+    omega
+
+theorem uStep_onlyL_ok {sl : Nat} {pl : Pfx w} {vl : Option L} {ll lr : Tree w L} (aL : Lpm w L) (aR : Lpm w R)
+    (hwl : HasWF (Tree.node sl pl vl ll lr)) :
+    UStepOk ((.onlyL (.node sl pl vl ll lr) : UIdx w L R), aL, aR) := by
+  obtain ⟨hwll, hwlr⟩ := hwl.child
+  obtain ⟨o1, o2, o3⟩ := uOnlyChildrenL_spec aL aR ll lr hwll hwlr
+  have hs : uStep ((.onlyL (.node sl pl vl ll lr) : UIdx w L R), aL, aR) =
+      (uItem pl (slotVal (.node sl pl vl ll lr)) none aL aR, uExtend aL aR (onlyChildren .onlyL ll lr)) := rfl
+  unfold UStepOk
+  rw [hs]
+  refine ⟨o1, ?_, ?_⟩
+  · rw [o2, uSem_onlyL, slotEntries_node, List.map_append, List.map_append, List.append_assoc, view_uItem, slotVal_node]
+    congr 1
+    cases vl <;> simp [ownS, mkLeft]
+  · have h1 := size_node_eq sl pl vl ll lr
+    show Machine.wt1 uNu (uExtend aL aR (onlyChildren .onlyL ll lr)) + 1 ≤ _
+    rw [uNu_onlyL]; omega
+
+theorem uStep_onlyR_ok {sr : Nat} {pr : Pfx w} {vr : Option R} {rl rr : Tree w R} (aL : Lpm w L) (aR : Lpm w R)
+    (hwr : HasWF (Tree.node sr pr vr rl rr)) :
+    UStepOk ((.onlyR (.node sr pr vr rl rr) : UIdx w L R), aL, aR) := by
+  obtain ⟨hwrl, hwrr⟩ := hwr.child
+  obtain ⟨o1, o2, o3⟩ := uOnlyChildrenR_spec aL aR rl rr hwrl hwrr
+  have hs : uStep ((.onlyR (.node sr pr vr rl rr) : UIdx w L R), aL, aR) =
+      (uItem pr none (slotVal (.node sr pr vr rl rr)) aL aR, uExtend aL aR (onlyChildren .onlyR rl rr)) := rfl
+  unfold UStepOk
+  rw [hs]
+  refine ⟨o1, ?_, ?_⟩
+  · rw [o2, uSem_onlyR, slotEntries_node, List.map_append, List.map_append, List.append_assoc, view_uItem, slotVal_node]
+    congr 1
+    cases vr <;> simp [ownS, mkRight]
+  · have h1 := size_node_eq sr pr vr rl rr
+    show Machine.wt1 uNu (uExtend aL aR (onlyChildren .onlyR rl rr)) + 1 ≤ _
+    rw [uNu_onlyR]; omega
+
+theorem annOf_other_side {T : Type} {k : List Bool} {c : Bool} {B : KL w T} (hb : Under (k ++ [!c]) B) (ann : Lpm w T)
+    {p : Pfx w} (hp : k ++ [c] <+: p.net) : annOf B ann p = ann :=
+  annOf_of_cover_nil ann (coverK_other_side hb hp)
+
+theorem slotEntries_nil {T : Type} : (Tree.nil : Tree w T).slotEntries = [] := rfl
+
+/-- `next_indices_first_l`, with the annotation extension: the pushed entries denote the union of
+`l`'s children with `r` -/
+theorem uFirstL_spec {sl : Nat} {pl : Pfx w} {vl : Option L} {ll lr : Tree w L}
+    {sr : Nat} {pr : Pfx w} {vr : Option R} {rl rr : Tree w R} (aL : Lpm w L) (aR : Lpm w R)
+    (hwl : HasWF (Tree.node sl pl vl ll lr)) (hwr : HasWF (Tree.node sr pr vr rl rr))
+    (hpre : pl.net <+: pr.net) (hne : pl.net ≠ pr.net)
+    (hfl : orLpm (Tree.node sl pl vl ll lr) aL = aL) :
+    (∀ c ∈ uExtend aL aR (uFirstL pl ll lr (.node sr pr vr rl rr)), uOk c) ∧
+    (uExtend aL aR (uFirstL pl ll lr (.node sr pr vr rl rr))).reverse.flatMap uSem =
+      unionS (annOf (Tree.node sr pr vr rl rr).slotEntries aR) (annOf (Tree.node sl pl vl ll lr).slotEntries aL)
+        (ll.slotEntries ++ lr.slotEntries) (Tree.node sr pr vr rl rr).slotEntries ∧
+    Machine.wt1 uNu (uExtend aL aR (uFirstL pl ll lr (.node sr pr vr rl rr))) ≤
+      ll.size + lr.size + (Tree.node sr pr vr rl rr).size := by
+  have hside := Pfx.side_prefix hpre hne
+  obtain ⟨hwll, hwlr⟩ := hwl.child
+  obtain ⟨ul, ull, ulr⟩ := under_root hwl
+  obtain ⟨ur, _, _⟩ := under_root hwr
+  have urs : Under (pl.net ++ [Pfx.toRight pl pr]) (Tree.node sr pr vr rl rr).slotEntries := ur.mono hside
+  have F1 : ∀ b ∈ (Tree.node sr pr vr rl rr).slotEntries,
+      annOf (Tree.node sl pl vl ll lr).slotEntries aL b.2.1 =
+        annOf (child ll lr (Pfx.toRight pl pr)).slotEntries aL b.2.1 :=
+    fun b hb => annOf_side hwl _ (urs b hb) hfl
+  generalize hFL : annOf (Tree.node sr pr vr rl rr).slotEntries aR = FL
+  generalize hFR : annOf (Tree.node sl pl vl ll lr).slotEntries aL = FR at F1 ⊢
+  unfold uFirstL
+  cases ll with
+  | nil =>
+    cases lr with
+    | nil =>
+      refine ⟨?_, ?_, ?_⟩
+      · simp only [uExtend_onlyR, List.mem_singleton, forall_eq]
+        exact uOk_onlyR aL _ hwr (by simp)
+      · simp only [uExtend_onlyR, List.reverse_cons, List.reverse_nil, List.nil_append, List.flatMap_cons,
+          List.flatMap_nil, List.append_nil, uSem_onlyR, slotEntries_nil, unionS_nil_left]
+        apply List.map_congr_left
+        intro b hb
+        have := F1 b hb
+        cases hc : Pfx.toRight pl pr <;> rw [hc] at this <;>
+          simp only [child_false, child_true, slotEntries_nil, annOf_nil] at this <;> simp [mkRight, this]
+      · simp [uExtend_onlyR, Machine.wt1_cons, Machine.wt1_nil, uNu_onlyR, Tree.size]
+    | node s2 p2 v2 a2 b2 =>
+      obtain ⟨c1, c2, c3⟩ := uNext_spec (.node s2 p2 v2 a2 b2) (.node sr pr vr rl rr) aL aR hwlr hwr
+      refine ⟨c1, ?_, by simp only [Tree.size] at c3 ⊢; omega⟩
+      rw [c2, slotEntries_nil, List.nil_append]
+      subst hFL
+      apply unionS_congr _ _ _ (Nat.le_refl _) (fun x _ => rfl)
+      intro b hb
+      have := F1 b hb
+      cases hc : Pfx.toRight pl pr
+      · rw [hc] at this urs
+        simp only [child_false, slotEntries_nil, annOf_nil] at this
+        rw [this, annOf_other_side (k := pl.net) (c := false) ulr aL (urs b hb)]
+      · rw [hc] at this
+        simp only [child_true] at this
+        exact this.symm
+  | node s1 p1 v1 a1 b1 =>
+    cases lr with
+    | nil =>
+      obtain ⟨c1, c2, c3⟩ := uNext_spec (.node s1 p1 v1 a1 b1) (.node sr pr vr rl rr) aL aR hwll hwr
+      refine ⟨c1, ?_, by simp only [Tree.size] at c3 ⊢; omega⟩
+      rw [c2, slotEntries_nil, List.append_nil]
+      subst hFL
+      apply unionS_congr _ _ _ (Nat.le_refl _) (fun x _ => rfl)
+      intro b hb
+      have := F1 b hb
+      cases hc : Pfx.toRight pl pr
+      · rw [hc] at this
+        simp only [child_false] at this
+        exact this.symm
+      · rw [hc] at this urs
+        simp only [child_true, slotEntries_nil, annOf_nil] at this
+        rw [this, annOf_other_side (k := pl.net) (c := true) ull aL (urs b hb)]
+    | node s2 p2 v2 a2 b2 =>
+      have htr : toRightOf pl (Tree.node sr pr vr rl rr) = Pfx.toRight pl pr := rfl
+      simp only [htr]
+      cases hc : Pfx.toRight pl pr
+      · -- r lies on the left: pair it with `ll`; `lr` is on its own
+        rw [hc] at urs F1
+        simp only [child_false] at F1
+        obtain ⟨c1, c2, c3⟩ := uNext_spec (.node s1 p1 v1 a1 b1) (.node sr pr vr rl rr) aL aR hwll hwr
+        simp only [Bool.false_eq_true, ite_false, uExtend_cons_onlyL]
+        refine ⟨?_, ?_, ?_⟩
+        · intro c hc'
+          rcases List.mem_cons.1 hc' with rfl | h'
+          · exact uOk_onlyL _ aR hwlr (by simp)
+          · exact c1 c h'
+        · rw [List.reverse_cons, List.flatMap_append, c2]
+          simp only [List.flatMap_cons, List.flatMap_nil, List.append_nil, uSem_onlyL]
+          have sep2 : Sep (Tree.node s1 p1 v1 a1 b1).slotEntries (Tree.node sr pr vr rl rr).slotEntries
+              (Tree.node s2 p2 v2 a2 b2).slotEntries ([] : KL w R) :=
+            sep_of_lt ull urs ulr (by intro x hx; simp at hx) (fun x y hx hy => keyLt_sides hx hy)
+          have := unionS_append FL FR _ _ _ _ _ (Nat.le_refl _) sep2
+          simp only [List.append_nil] at this
+          rw [this, unionS_nil_right]
+          subst hFL
+          congr 1
+          · exact unionS_congr _ _ _ (Nat.le_refl _) (fun x _ => rfl) (fun b hb => (F1 b hb).symm)
+          · exact (map_mkLeft_of_free aR (fun x hx => coverK_other_side (k := pl.net) (c := true) urs (ulr x hx))).symm
+        · rw [Machine.wt1_cons, uNu_onlyL]; omega
+      · rw [hc] at urs F1
+        simp only [child_true] at F1
+        obtain ⟨c1, c2, c3⟩ := uNext_spec (.node s2 p2 v2 a2 b2) (.node sr pr vr rl rr) aL aR hwlr hwr
+        simp only [ite_true, uExtend_append, uExtend_onlyL]
+        refine ⟨?_, ?_, ?_⟩
+        · intro c hc'
+          rcases List.mem_append.1 hc' with h' | h'
+          · exact c1 c h'
+          · simp only [List.mem_singleton] at h'; subst h'
+            exact uOk_onlyL _ aR hwll (by simp)
+        · rw [List.reverse_append, List.flatMap_append, c2]
+          simp only [List.reverse_cons, List.reverse_nil, List.nil_append, List.flatMap_cons, List.flatMap_nil,
+            List.append_nil, uSem_onlyL]
+          have sep2 : Sep (Tree.node s1 p1 v1 a1 b1).slotEntries ([] : KL w R)
+              (Tree.node s2 p2 v2 a2 b2).slotEntries (Tree.node sr pr vr rl rr).slotEntries :=
+            sep_of_lt ull (by intro x hx; simp at hx) ulr urs (fun x y hx hy => keyLt_sides hx hy)
+          have := unionS_append FL FR _ _ _ _ _ (Nat.le_refl _) sep2
+          simp only [List.nil_append] at this
+          rw [this, unionS_nil_right]
+          subst hFL
+          congr 1
+          · exact (map_mkLeft_of_free aR (fun x hx => coverK_other_side (k := pl.net) (c := false) urs (ull x hx))).symm
+          · exact unionS_congr _ _ _ (Nat.le_refl _) (fun x _ => rfl) (fun b hb => (F1 b hb).symm)
+        · rw [Machine.wt1_append, Machine.wt1_cons, Machine.wt1_nil, uNu_onlyL]; omega
+
+theorem uStep_firstL_ok {sl : Nat} {pl : Pfx w} {vl : Option L} {ll lr : Tree w L}
+    {sr : Nat} {pr : Pfx w} {vr : Option R} {rl rr : Tree w R} (aL : Lpm w L) (aR : Lpm w R)
+    (hwl : HasWF (Tree.node sl pl vl ll lr)) (hwr : HasWF (Tree.node sr pr vr rl rr))
+    (hpre : pl.net <+: pr.net) (hne : pl.net ≠ pr.net)
+    (hfl : orLpm (Tree.node sl pl vl ll lr) aL = aL) :
+    UStepOk (.firstL (.node sl pl vl ll lr) (.node sr pr vr rl rr), aL, aR) := by
+  obtain ⟨f1, f2, f3⟩ := uFirstL_spec aL aR hwl hwr hpre hne hfl
+  have hside := Pfx.side_prefix hpre hne
+  obtain ⟨ul, ull, ulr⟩ := under_root hwl
+  obtain ⟨ur, _, _⟩ := under_root hwr
+  have urs : Under (pl.net ++ [Pfx.toRight pl pr]) (Tree.node sr pr vr rl rr).slotEntries := ur.mono hside
+  have hown : coverK (Tree.node sr pr vr rl rr).slotEntries pl = [] := coverK_below urs (List.prefix_refl _)
+  have hsz := size_node_eq sl pl vl ll lr
+  refine ⟨f1, ?_, ?_⟩
+  · show uSem _ = ((uItem pl (slotVal (.node sl pl vl ll lr)) none aL aR).bind UItem.view).toList ++
+      (uExtend aL aR (uFirstL pl ll lr (.node sr pr vr rl rr))).reverse.flatMap uSem
+    rw [f2]
+    unfold uSem
+    simp only [uL, uR]
+    generalize hFL : annOf (Tree.node sr pr vr rl rr).slotEntries aR = FL
+    generalize hFR : annOf (Tree.node sl pl vl ll lr).slotEntries aL = FR
+    rw [slotEntries_node sl, List.append_assoc]
+    have sep1 : Sep (ownS sl pl vl) ([] : KL w R) (ll.slotEntries ++ lr.slotEntries) (Tree.node sr pr vr rl rr).slotEntries :=
+      sep_own (allKey_ownS sl pl vl) (by intro x hx; simp at hx) (exists_side_append ull ulr) (exists_side urs)
+    have := unionS_append FL FR _ (ownS sl pl vl) [] (ll.slotEntries ++ lr.slotEntries) (Tree.node sr pr vr rl rr).slotEntries
+      (Nat.le_refl _) sep1
+    simp only [List.nil_append] at this
+    rw [this, unionS_nil_right]
+    congr 1
+    subst hFL
+    rw [view_uItem, slotVal_node]
+    cases vl <;> simp [ownS, mkLeft, annOf_of_cover_nil aR hown]
+  · show Machine.wt1 uNu (uExtend aL aR (uFirstL pl ll lr (.node sr pr vr rl rr))) + 1 ≤
+      (Tree.node sl pl vl ll lr).size + (Tree.node sr pr vr rl rr).size
+    omega
+
+/-- `next_indices_first_r`, with the annotation extension -/
+theorem uFirstR_spec {sl : Nat} {pl : Pfx w} {vl : Option L} {ll lr : Tree w L}
+    {sr : Nat} {pr : Pfx w} {vr : Option R} {rl rr : Tree w R} (aL : Lpm w L) (aR : Lpm w R)
+    (hwl : HasWF (Tree.node sl pl vl ll lr)) (hwr : HasWF (Tree.node sr pr vr rl rr))
+    (hpre : pr.net <+: pl.net) (hne : pl.net ≠ pr.net)
+    (hfr : orLpm (Tree.node sr pr vr rl rr) aR = aR) :
+    (∀ c ∈ uExtend aL aR (uFirstR (.node sl pl vl ll lr) pr rl rr), uOk c) ∧
+    (uExtend aL aR (uFirstR (.node sl pl vl ll lr) pr rl rr)).reverse.flatMap uSem =
+      unionS (annOf (Tree.node sr pr vr rl rr).slotEntries aR) (annOf (Tree.node sl pl vl ll lr).slotEntries aL)
+        (Tree.node sl pl vl ll lr).slotEntries (rl.slotEntries ++ rr.slotEntries) ∧
+    Machine.wt1 uNu (uExtend aL aR (uFirstR (.node sl pl vl ll lr) pr rl rr)) ≤
+      (Tree.node sl pl vl ll lr).size + rl.size + rr.size := by
+  have hside := Pfx.side_prefix hpre (fun e => hne e.symm)
+  obtain ⟨hwrl, hwrr⟩ := hwr.child
+  obtain ⟨ul, _, _⟩ := under_root hwl
+  obtain ⟨ur, url, urr⟩ := under_root hwr
+  have uls : Under (pr.net ++ [Pfx.toRight pr pl]) (Tree.node sl pl vl ll lr).slotEntries := ul.mono hside
+  have F1 : ∀ a ∈ (Tree.node sl pl vl ll lr).slotEntries,
+      annOf (Tree.node sr pr vr rl rr).slotEntries aR a.2.1 =
+        annOf (child rl rr (Pfx.toRight pr pl)).slotEntries aR a.2.1 :=
+    fun a ha => annOf_side hwr _ (uls a ha) hfr
+  generalize hFR : annOf (Tree.node sl pl vl ll lr).slotEntries aL = FR
+  generalize hFL : annOf (Tree.node sr pr vr rl rr).slotEntries aR = FL at F1 ⊢
+  unfold uFirstR
+  cases rl with
+  | nil =>
+    cases rr with
+    | nil =>
+      refine ⟨?_, ?_, ?_⟩
+      · simp only [uExtend_onlyL, List.mem_singleton, forall_eq]
+        exact uOk_onlyL _ aR hwl (by simp)
+      · simp only [uExtend_onlyL, List.reverse_cons, List.reverse_nil, List.nil_append, List.flatMap_cons,
+          List.flatMap_nil, List.append_nil, uSem_onlyL, slotEntries_nil, unionS_nil_right]
+        apply List.map_congr_left
+        intro a ha
+        have := F1 a ha
+        cases hc : Pfx.toRight pr pl <;> rw [hc] at this <;>
+          simp only [child_false, child_true, slotEntries_nil, annOf_nil] at this <;> simp [mkLeft, this]
+      · simp [uExtend_onlyL, Machine.wt1_cons, Machine.wt1_nil, uNu_onlyL, Tree.size]
+    | node s2 p2 v2 a2 b2 =>
+      obtain ⟨c1, c2, c3⟩ := uNext_spec (.node sl pl vl ll lr) (.node s2 p2 v2 a2 b2) aL aR hwl hwrr
+      refine ⟨c1, ?_, by simp only [Tree.size] at c3 ⊢; omega⟩
+      rw [c2, slotEntries_nil, List.nil_append]
+      subst hFR
+      apply unionS_congr _ _ _ (Nat.le_refl _) ?_ (fun x _ => rfl)
+      intro a ha
+      have := F1 a ha
+      cases hc : Pfx.toRight pr pl
+      · rw [hc] at this uls
+        simp only [child_false, slotEntries_nil, annOf_nil] at this
+        rw [this, annOf_other_side (k := pr.net) (c := false) urr aR (uls a ha)]
+      · rw [hc] at this
+        simp only [child_true] at this
+        exact this.symm
+  | node s1 p1 v1 a1 b1 =>
+    cases rr with
+    | nil =>
+      obtain ⟨c1, c2, c3⟩ := uNext_spec (.node sl pl vl ll lr) (.node s1 p1 v1 a1 b1) aL aR hwl hwrl
+      refine ⟨c1, ?_, by simp only [Tree.size] at c3 ⊢; omega⟩
+      rw [c2, slotEntries_nil, List.append_nil]
+      subst hFR
+      apply unionS_congr _ _ _ (Nat.le_refl _) ?_ (fun x _ => rfl)
+      intro a ha
+      have := F1 a ha
+      cases hc : Pfx.toRight pr pl
+      · rw [hc] at this
+        simp only [child_false] at this
+        exact this.symm
+      · rw [hc] at this uls
+        simp only [child_true, slotEntries_nil, annOf_nil] at this
+        rw [this, annOf_other_side (k := pr.net) (c := true) url aR (uls a ha)]
+    | node s2 p2 v2 a2 b2 =>
+      have htr : toRightOf pr (Tree.node sl pl vl ll lr) = Pfx.toRight pr pl := rfl
+      simp only [htr]
+      cases hc : Pfx.toRight pr pl
+      · -- l lies on the left: pair it with `rl`; `rr` is on its own
+        rw [hc] at uls F1
+        simp only [child_false] at F1
+        obtain ⟨c1, c2, c3⟩ := uNext_spec (.node sl pl vl ll lr) (.node s1 p1 v1 a1 b1) aL aR hwl hwrl
+        simp only [Bool.false_eq_true, ite_false, uExtend_cons_onlyR]
+        refine ⟨?_, ?_, ?_⟩
+        · intro c hc'
+          rcases List.mem_cons.1 hc' with rfl | h'
+          · exact uOk_onlyR aL _ hwrr (by simp)
+          · exact c1 c h'
+        · rw [List.reverse_cons, List.flatMap_append, c2]
+          simp only [List.flatMap_cons, List.flatMap_nil, List.append_nil, uSem_onlyR]
+          have sep2 : Sep (Tree.node sl pl vl ll lr).slotEntries (Tree.node s1 p1 v1 a1 b1).slotEntries
+              ([] : KL w L) (Tree.node s2 p2 v2 a2 b2).slotEntries :=
+            sep_of_lt uls url (by intro x hx; simp at hx) urr (fun x y hx hy => keyLt_sides hx hy)
+          have := unionS_append FL FR _ _ _ _ _ (Nat.le_refl _) sep2
+          simp only [List.append_nil] at this
+          rw [this, unionS_nil_left]
+          subst hFR
+          congr 1
+          · exact unionS_congr _ _ _ (Nat.le_refl _) (fun a ha => (F1 a ha).symm) (fun x _ => rfl)
+          · exact (map_mkRight_of_free aL (fun y hy => coverK_other_side (k := pr.net) (c := true) uls (urr y hy))).symm
+        · rw [Machine.wt1_cons, uNu_onlyR]; omega
+      · rw [hc] at uls F1
+        simp only [child_true] at F1
+        obtain ⟨c1, c2, c3⟩ := uNext_spec (.node sl pl vl ll lr) (.node s2 p2 v2 a2 b2) aL aR hwl hwrr
+        simp only [ite_true, uExtend_append, uExtend_onlyR]
+        refine ⟨?_, ?_, ?_⟩
+        · intro c hc'
+          rcases List.mem_append.1 hc' with h' | h'
+          · exact c1 c h'
+          · simp only [List.mem_singleton] at h'; subst h'
+            exact uOk_onlyR aL _ hwrl (by simp)
+        · rw [List.reverse_append, List.flatMap_append, c2]
+          simp only [List.reverse_cons, List.reverse_nil, List.nil_append, List.flatMap_cons, List.flatMap_nil,
+            List.append_nil, uSem_onlyR]
+          have sep2 : Sep ([] : KL w L) (Tree.node s1 p1 v1 a1 b1).slotEntries
+              (Tree.node sl pl vl ll lr).slotEntries (Tree.node s2 p2 v2 a2 b2).slotEntries :=
+            sep_of_lt (by intro x hx; simp at hx) url uls urr (fun x y hx hy => keyLt_sides hx hy)
+          have := unionS_append FL FR _ _ _ _ _ (Nat.le_refl _) sep2
+          simp only [List.nil_append] at this
+          rw [this, unionS_nil_left]
+          subst hFR
+          congr 1
+          · exact (map_mkRight_of_free aL (fun y hy => coverK_other_side (k := pr.net) (c := false) uls (url y hy))).symm
+          · exact unionS_congr _ _ _ (Nat.le_refl _) (fun a ha => (F1 a ha).symm) (fun x _ => rfl)
+        · rw [Machine.wt1_append, Machine.wt1_cons, Machine.wt1_nil, uNu_onlyR]; omega
+
+theorem uStep_firstR_ok {sl : Nat} {pl : Pfx w} {vl : Option L} {ll lr : Tree w L}
+    {sr : Nat} {pr : Pfx w} {vr : Option R} {rl rr : Tree w R} (aL : Lpm w L) (aR : Lpm w R)
+    (hwl : HasWF (Tree.node sl pl vl ll lr)) (hwr : HasWF (Tree.node sr pr vr rl rr))
+    (hpre : pr.net <+: pl.net) (hne : pl.net ≠ pr.net)
+    (hfr : orLpm (Tree.node sr pr vr rl rr) aR = aR) :
+    UStepOk (.firstR (.node sl pl vl ll lr) (.node sr pr vr rl rr), aL, aR) := by
+  obtain ⟨f1, f2, f3⟩ := uFirstR_spec aL aR hwl hwr hpre hne hfr
+  have hside := Pfx.side_prefix hpre (fun e => hne e.symm)
+  obtain ⟨ul, _, _⟩ := under_root hwl
+  obtain ⟨ur, url, urr⟩ := under_root hwr
+  have uls : Under (pr.net ++ [Pfx.toRight pr pl]) (Tree.node sl pl vl ll lr).slotEntries := ul.mono hside
+  have hown : coverK (Tree.node sl pl vl ll lr).slotEntries pr = [] := coverK_below uls (List.prefix_refl _)
+  have hsz := size_node_eq sr pr vr rl rr
+  refine ⟨f1, ?_, ?_⟩
+  · show uSem _ = ((uItem pr none (slotVal (.node sr pr vr rl rr)) aL aR).bind UItem.view).toList ++
+      (uExtend aL aR (uFirstR (.node sl pl vl ll lr) pr rl rr)).reverse.flatMap uSem
+    rw [f2]
+    unfold uSem
+    simp only [uL, uR]
+    generalize hFL : annOf (Tree.node sr pr vr rl rr).slotEntries aR = FL
+    generalize hFR : annOf (Tree.node sl pl vl ll lr).slotEntries aL = FR
+    rw [slotEntries_node sr, List.append_assoc]
+    have sep1 : Sep ([] : KL w L) (ownS sr pr vr) (Tree.node sl pl vl ll lr).slotEntries (rl.slotEntries ++ rr.slotEntries) :=
+      sep_own (by intro x hx; simp at hx) (allKey_ownS sr pr vr) (exists_side uls) (exists_side_append url urr)
+    have := unionS_append FL FR _ [] (ownS sr pr vr) (Tree.node sl pl vl ll lr).slotEntries (rl.slotEntries ++ rr.slotEntries)
+      (Nat.le_refl _) sep1
+    simp only [List.nil_append] at this
+    rw [this, unionS_nil_left]
+    congr 1
+    subst hFR
+    rw [view_uItem, slotVal_node]
+    cases vr <;> simp [ownS, mkRight, annOf_of_cover_nil aL hown]
+  · show Machine.wt1 uNu (uExtend aL aR (uFirstR (.node sl pl vl ll lr) pr rl rr)) + 1 ≤
+      (Tree.node sl pl vl ll lr).size + (Tree.node sr pr vr rl rr).size
+    omega
+
+/-- every step of the union machine unfolds the denotation of the popped entry -/
+theorem uStep_ok (e : UEntry w L R) (h : uOk e) : UStepOk e := by
+  obtain ⟨idx, aL, aR⟩ := e
+  obtain ⟨hwl, hwr, hrel⟩ := h
+  cases idx with
+  | both l r =>
+    obtain ⟨hnl, hnr, hnet, hfl, hfr⟩ := hrel
+    cases l with
+    | nil => exact absurd rfl hnl
+    | node sl pl vl ll lr =>
+      cases r with
+      | nil => exact absurd rfl hnr
+      | node sr pr vr rl rr => exact uStep_both_ok aL aR hwl hwr hnet hfl hfr
+  | firstL l r =>
+    obtain ⟨hnl, hnr, hpre, hne, hfl⟩ := hrel
+    cases l with
+    | nil => exact absurd rfl hnl
+    | node sl pl vl ll lr =>
+      cases r with
+      | nil => exact absurd rfl hnr
+      | node sr pr vr rl rr => exact uStep_firstL_ok aL aR hwl hwr hpre hne hfl
+  | firstR l r =>
+    obtain ⟨hnl, hnr, hpre, hne, hfr⟩ := hrel
+    cases l with
+    | nil => exact absurd rfl hnl
+    | node sl pl vl ll lr =>
+      cases r with
+      | nil => exact absurd rfl hnr
+      | node sr pr vr rl rr => exact uStep_firstR_ok aL aR hwl hwr hpre hne hfr
+  | onlyL l =>
+    cases l with
+    | nil => exact absurd rfl hrel
+    | node sl pl vl ll lr => exact uStep_onlyL_ok aL aR hwl
+  | onlyR r =>
+    cases r with
+    | nil => exact absurd rfl hrel
+    | node sr pr vr rl rr => exact uStep_onlyR_ok aL aR hwr
+
+/-- `a.union(b)` (and `union_mut`): the items, seen through what `UnionItem` exposes, are the sorted
+merge of the two entry lists — one item per key stored in at least one operand, `Both` exactly for
+keys stored in both, with the stored values; a one-sided item carries the longest prefix stored on
+the other side that covers it (`None` when there is none) -/
+theorem union_eq (a : Tree w L) (b : Tree w R) (hwa : HasWF a) (hwb : HasWF b) :
+    (union a b).filterMap UItem.view =
+      unionS (annOf b.slotEntries none) (annOf a.slotEntries none) a.slotEntries b.slotEntries := by
+  unfold union
+  obtain ⟨c1, c2, c3⟩ := uNext_spec a b none none hwa hwb
+  have hok : ∀ e ∈ (uExtend none none (uNext a b)).reverse, uOk e := fun e he => c1 e (List.mem_reverse.1 he)
+  rw [Machine.run_eq_filterMap uStep UItem.view uNu uSem uOk (fun e he => uStep_ok e he) (fuelFor a b) _ hok
+    (by rw [Machine.wt1_reverse]; unfold fuelFor; omega)]
+  exact c2
+
 end SetOps
